@@ -30,6 +30,15 @@ func HarnessDir() string {
 	if d := os.Getenv("VERIF_HARNESS"); d != "" {
 		return d
 	}
+	if d := os.Getenv("VERIF_ROOT"); d != "" {
+		return filepath.Join(d, "harness")
+	}
+	if exe, err := os.Executable(); err == nil {
+		r := filepath.Dir(filepath.Dir(exe))
+		if _, err := os.Stat(filepath.Join(r, "harness", "go.mod")); err == nil {
+			return filepath.Join(r, "harness")
+		}
+	}
 	return "/verif/harness"
 }
 
